@@ -35,6 +35,7 @@ def run(ctx):
     ctx.do(rule_constants)
     ctx.do(rule_wiring)
     ctx.do(rule_determinism)
+    ctx.do(rule_renamed_keys_collide)
     # the id is computed by the base constructor: every contributing property must be in place by then
     from .C01 import rule_inner_written_by_constructor
     ctx.do(rule_inner_written_by_constructor, rule_id="C06.wiring")
@@ -385,3 +386,44 @@ def rule_determinism(ctx):
               "canonicalize() does not request sorted keys", file=ca.module.relpath, line=ca.node.lineno, function=ca.qualname,
               expected="JSONEncoder(sort_keys=True)", found=short(ca.node, 120))
     run.floor(R, 8)
+
+
+def rule_renamed_keys_collide(ctx):
+    """"Equal contributing values give equal ids across dictionary orders": a cleaning step that rebuilds a dictionary under
+    RENAMED keys (store key != loop key) merges the entries whose names map to one key, and which of them survives is the
+    iteration order of the input.  Every such store is under a test of the new key against the dictionary being built (the
+    collision is refused, or resolved without regard to order)."""
+    run = ctx.run
+    prog = ctx.prog
+    R = "C06.order-free-cleaning"
+    n = 0
+    for cls in [c_ for c_ in prog.classes.values() if c_.module.name == "stix2.properties"]:
+        fi = cls.methods.get("clean")
+        if fi is None:
+            continue
+        rel = fi.module.relpath
+        for lp in body_walk(fi.node):
+            if not (isinstance(lp, ast.For) and isinstance(lp.iter, ast.Call) and isinstance(lp.iter.func, ast.Attribute)
+                    and lp.iter.func.attr in ("items", "keys")):
+                continue
+            tn = names_in(lp.target)
+            for st in ast.walk(lp):
+                if not (isinstance(st, ast.Assign) and isinstance(st.targets[0], ast.Subscript) and isinstance(st.targets[0].value, ast.Name)):
+                    continue
+                k = st.targets[0].slice
+                if (isinstance(k, ast.Name) and k.id in tn) or isinstance(k, ast.Constant):
+                    continue
+                d = st.targets[0].value.id
+                n += 1
+                # a membership test of the new key in the dictionary being built, anywhere in the loop body before the store
+                guards = [t for t in ast.walk(lp) if isinstance(t, ast.Compare) and len(t.ops) == 1 and isinstance(t.ops[0], (ast.In, ast.NotIn))
+                          and norm(t.left) == norm(k) and norm(t.comparators[0]) == d and t.lineno <= st.lineno]
+                guards += [c for c in ast.walk(lp) if isinstance(c, ast.Call) and isinstance(c.func, ast.Attribute) and c.func.attr in ("get", "setdefault")
+                           and norm(c.func.value) == d and c.args and norm(c.args[0]) == norm(k) and c.lineno <= st.lineno]
+                run.check(bool(guards), R, key(rel, fi.qualname, "renamed-key-store:%s" % d),
+                          "entries of the given dictionary are stored under a renamed key without a collision test: two names that map to "
+                          "one key (two spellings of one hash algorithm: {'md5': A, 'MD5': B}) collapse to whichever comes last in the "
+                          "ORDER of the input dictionary, so equal dictionaries -- and two texts of one JSON object -- give different "
+                          "values, and different ids where the property is identifier-contributing", file=rel, line=st.lineno,
+                          function=fi.qualname, expected="if %s in %s: <refuse / resolve independently of order>" % (norm(k), d), found=short(st))
+    run.floor(R, 1)
